@@ -3,7 +3,8 @@
     *)
 From V Require Import Common.Base JpegLL.JllBits JpegLL.JllHuff JpegLL.JllModel JpegLL.JllT81
   JpegLL.JllProofsBits JpegLL.JllProofsHuff JpegLL.JllProofs JpegLL.JllProofsRT JpegLL.JllProofsT81
-  JpegLL.JllProofsCanon.
+  JpegLL.JllProofsCanon JpegLL.JllProofsT81Dec JpegLL.JllProofsOpt JpegLL.JllProofsOpt2
+  JpegLL.JllProofsOpt3 JpegLL.JllProofsOpt4.
 
 (* All 65536 differences d in [-32768, 32767] go through EncodeLosslessDifference /
    ReceiveLosslessDifference exactly: the category is at most 16 (16 only for -32768, without
@@ -78,26 +79,44 @@ Theorem C02_stuff_unstuff : forall ws tail,
 Proof. exact stuff_unstuff. Qed.
 Print Assumptions C02_stuff_unstuff.
 
-(* lossless.Decode (lossless.Encode img pred) = img with its geometry and precision, for
-   predictor 1..7 and automatic selection (0), under the hypothesis that the per-image optimal
-   Huffman table is a valid canonical table containing the categories that occur (checked by
-   the harness on every table the Go encoder emits; C02_build_table_ok is not proved). *)
+(* BuildOptimalHuffmanTable (libjpeg's jpeg_gen_optimal_table: merge loop with pseudo symbol 256,
+   others-chains, 32 -> 16 length limiting, removal of the pseudo symbol), applied to 256
+   non-negative counters that are zero outside the categories 0..16 and not all zero, ALWAYS
+   returns a valid canonical table (16 byte counts, Kraft sum <= 1, distinct byte symbols, as
+   many symbols as codes) that contains every symbol with a non-zero count.  Proof: every tree
+   of the merge forest satisfies the Kraft equality (JllProofsOpt); the numeric post-processing
+   is decided for all 11918 Kraft-complete count vectors with at most 18 leaves of depth <= 17
+   by a pruned exhaustive search whose completeness is proved (JllProofsOpt2). *)
+Theorem C02_build_table_ok : forall freqs, freqs_ok freqs ->
+  (exists i, 0 <= i < 256 /\ znth freqs i 0 <> 0) ->
+  exists bits vals, build_optimal freqs = Ok (bits, vals) /\ t81_table_ok bits vals = true /\
+    (forall i, 0 <= i < 256 -> znth freqs i 0 <> 0 -> In i vals).
+Proof. exact build_optimal_ok. Qed.
+Print Assumptions C02_build_table_ok.
+
+(* lossless.Decode (lossless.Encode img pred) = img with its geometry and precision, for every
+   well-formed image (1 or 3 components, P in 2..16, samples below 2^P in the 8-bit / 16-bit
+   little-endian container, dimensions 1..65535), every predictor 1..7 and automatic selection
+   (0).  No hypothesis on the Huffman table is left. *)
 Theorem C02_roundtrip : forall w h comps P pred pixels s,
   wf_image w h comps P pixels -> 0 <= pred <= 7 ->
-  table_hyp (ll_diffs w comps P (effective_pred w h comps P pred pixels)
-                      (pixels_to_rows w h comps P pixels)) ->
   jll_encode w h comps P pred pixels = Ok s ->
   jll_decode s = Ok (pixels, w, h, comps, P).
-Proof. exact jll_roundtrip. Qed.
+Proof. exact jll_roundtrip_full. Qed.
 Print Assumptions C02_roundtrip.
+
+(* ... and the encoder does produce a stream for every such image *)
+Theorem C02_encode_total : forall w h comps P pred pixels,
+  wf_image w h comps P pixels -> 0 <= pred <= 7 -> exists s, jll_encode w h comps P pred pixels = Ok s.
+Proof. exact jll_encode_total. Qed.
+Print Assumptions C02_encode_total.
 
 (* the same for the Selection-Value-1 codec *)
 Theorem C02_roundtrip_sv1 : forall w h comps P pixels s,
   wf_image w h comps P pixels ->
-  table_hyp (sv1_diffs w comps P (pixels_to_rows w h comps P pixels)) ->
   sv1_encode w h comps P pixels = Ok s ->
   sv1_decode s = Ok (pixels, w, h, comps, P).
-Proof. exact sv1_roundtrip. Qed.
+Proof. exact sv1_roundtrip_full. Qed.
 Print Assumptions C02_roundtrip_sv1.
 
 (* ---------- non-vacuity ---------- *)
